@@ -260,8 +260,14 @@ func call(op string, t reflect.Type, val int) (res string) {
 	case "proto.Size":
 		return fmt.Sprint(proto.Size(ptr))
 	case "proto.TypeOf":
+		// the descriptor's identity is part of the result: running alone, every call for one Go
+		// type returns the same descriptor (programs compare them with == and key tables on them)
 		pt := proto.TypeOf(t)
-		return fmt.Sprint(pt.String(), pt.NumField())
+		ids := []int64{descID(pt)}
+		for i := 0; i < pt.NumField(); i++ {
+			ids = append(ids, descID(pt.Field(i).Type))
+		}
+		return fmt.Sprint(pt.String(), pt.NumField(), " descriptors#", ids)
 	case "thrift.Marshal.compact", "thrift.Marshal.binary":
 		p := thrift.Protocol(compact)
 		if strings.HasSuffix(op, "binary") {
@@ -273,6 +279,18 @@ func call(op string, t reflect.Type, val int) (res string) {
 		return fmt.Sprintf("%d|%v|%s|%v", len(b), err, canon(out.Interface()), uerr)
 	}
 	return "unknown op"
+}
+
+var descIDs sync.Map
+var descNext atomic.Int64
+
+// descID numbers the distinct proto.Type descriptors (pointers) seen by this process.
+func descID(t proto.Type) int64 {
+	if v, ok := descIDs.Load(t); ok {
+		return v.(int64)
+	}
+	v, _ := descIDs.LoadOrStore(t, descNext.Add(1))
+	return v.(int64)
 }
 
 var ops = []string{"json.Marshal", "json.Unmarshal", "json.Tokenizer", "json.TokenizerReuse", "json.PooledMaps", "proto.Marshal", "proto.Size", "proto.TypeOf", "thrift.Marshal.compact", "thrift.Marshal.binary"}
